@@ -128,6 +128,9 @@ class Patterns:
     replacement = LazyPattern(r'^([^\\$]|\\{2}|\\\$|\$\d+)*$')
     sequence_type = LazyPattern(r'\s?([()?*+,])\s?')
     unicode_escape = LazyPattern(r'(?:\\u([0-9A-Fa-f]{4})|\\U([0-9A-Fa-f]{8}))')
+    json_escape = LazyPattern(
+        r'\\(?:(["\\/bfnrt])|u([0-9A-Fa-f]{4})|U([0-9A-Fa-f]{8}))'
+    )
     wrong_escape = LazyPattern(r'%(?![a-fA-F\d]{2})')
     xml_newlines = LazyPattern('\r\n|\r|\n')
     double = LazyPattern(r'^[+-]?(?:[0-9]+(?:\.[0-9]*)?|\.[0-9]+)(?:[Ee][+-]?[0-9]+)?$')
@@ -356,22 +359,21 @@ def escape_json_string(s: str, escaped: bool = False) -> str:
     )
 
 
+JSON_SHORT_ESCAPES = {
+    '"': '"', '\\': '\\', '/': '/', 'b': '\b', 'f': '\f', 'n': '\n', 'r': '\r', 't': '\t'
+}
+
+
 def unescape_json_string(s: str) -> str:
 
-    def unicode_escape_callback(match: re.Match[str]) -> str:
-        group = match.group(1) or match.group(2)
-        return chr(int(group.upper(), 16))
+    def escape_callback(match: re.Match[str]) -> str:
+        # Escapes are decoded in a single pass: a sequence of replacements
+        # cannot tell an escaped backslash followed by 'n' from a newline escape.
+        if match.group(1) is not None:
+            return JSON_SHORT_ESCAPES[match.group(1)]
+        return chr(int(match.group(2) or match.group(3), 16))
 
-    s = s.replace('\\"', '\"').\
-        replace(r'\b', '\b').\
-        replace(r'\r', '\r').\
-        replace(r'\n', '\n').\
-        replace(r'\t', '\t').\
-        replace(r'\f', '\f').\
-        replace(r'\/', '/').\
-        replace('\\\\', '\\')
-
-    return Patterns.unicode_escape.sub(unicode_escape_callback, s)
+    return Patterns.json_escape.sub(escape_callback, s)
 
 
 def split_function_test(function_test: str) -> list[str]:
